@@ -838,6 +838,31 @@ def check_overrides_forward(cx: Cx, cls_q: str, names: List[str], rule='R-FWD'):
     return n
 
 
+def check_no_static_alias(cx: Cx, cls_q: str, names: List[str], rule='R-FWD'):
+    """A class-level statement `alias = <something built from the bare name of a method>` binds the implementation of THAT class:
+    a call through the alias does not dispatch on the receiver, so it skips the overrides of the package's subclasses (the
+    spatial worlds' add_agent, ...).  Checked for the methods a property's rules verify on a base class, on the class and its
+    package ancestors."""
+    import ast
+    base = cx.prog.cls(cls_q)
+    overridden = {n for n in names if any(n in sub.methods for sub in cx.prog.subclasses(base, strict=True))}
+    bad = None
+    for ci in cx.prog.mro(base):
+        for nm, v in ci.class_assigns.items():
+            refs = {y.id for y in ast.walk(v) if isinstance(y, ast.Name)} & overridden
+            if refs and nm not in names:
+                bad = bad or (ci, nm, sorted(refs))
+    if bad:
+        ci, nm, refs = bad
+        subs = sorted(s.name for s in cx.prog.subclasses(base, strict=True) if any(r in s.methods for r in refs))
+        cx.violation(rule, f"{ci.qualname}.{nm}", f"alias-of-{refs[0]}-dispatches-on-the-receiver",
+                     f"{ci.qualname}.{nm} is bound in the class body to {ci.name}'s own {refs[0]}: a call through it runs that "
+                     f"implementation even for {', '.join(subs)}, whose override of {refs[0]} (the behaviour the rules verify for them) is "
+                     f"skipped", where=ci.where)
+    else:
+        cx.ok(rule, f"no class-level alias captures {sorted(overridden)} of {base.name}", where=base.where, function=base.qualname)
+
+
 # ---------------------------------------------------------------------------------------------- module-level state
 def _immutable_module_value(mod, v: ast.expr, seen=()) -> bool:
     """The value bound to a module-level name cannot carry state from one call to the next: constants, tuples and
@@ -971,6 +996,22 @@ def object_truthiness_atoms(cx: Cx, fn: FuncInfo, formula) -> List[Term]:
             if loc in REGISTRY_FIELDS or (loc is None and isinstance(strip_versions(cont), Attr) and
                                           strip_versions(cont).name in {f for _, f in REGISTRY_FIELDS}):
                 hit = True
+        if not hit and cont is not None:
+            # manager[<system id>]: SystemManager.__getitem__ answers with a system object (or a component listing)
+            try:
+                ct = c.term_type(strip_versions(cont))
+            except Exception:
+                ct = None
+            if ct is None and isinstance(strip_versions(cont), Attr) and strip_versions(cont).name == 'systems':
+                bt_ = None
+                try:
+                    bt_ = c.term_type(strip_versions(strip_versions(cont).base))
+                except Exception:
+                    pass
+                if bt_ and bt_[0] == 'inst' and bt_[1].qualname == CORE + 'Model':
+                    ct = ('inst', cx.prog.cls(CORE + 'SystemManager'))
+            if ct and ct[0] == 'inst' and ct[1].qualname == CORE + 'SystemManager':
+                hit = True
         if not hit:
             try:
                 tt = c.term_type(t)
@@ -1066,6 +1107,17 @@ def check_no_stateful_memo(cx: Cx, rule='R-SHARED'):
                                                                     any('DataFrame' in repr(a)[:60] for a in v.args[:1]))):
                     why = f"returns {v!r}, an object built in the call: every caller with equal arguments receives the very same object"
                     break
+        if not why:
+            # the cache key compares arguments with == (1 == 1.0 == True) unless typed=True: a result computed by arithmetic on the
+            # arguments has the type of whichever equal argument came first
+            typed = any(isinstance(d, ast.Call) and any(k.arg == 'typed' and isinstance(k.value, ast.Constant) and k.value.value is True
+                                                        for k in d.keywords) for d in decs)
+            arith = [y for y in ast.walk(fn.node) if isinstance(y, ast.BinOp) and
+                     any(isinstance(z, ast.Name) and z.id in params for z in ast.walk(y))]
+            if not typed and arith:
+                why = (f"computes its result by arithmetic on its arguments ({ast.unparse(arith[0])[:60]}) while the cache compares them "
+                       f"with ==: a call with 2.0 (or True) stores a float (bool-derived) result that a later call with the equal int 2 "
+                       f"gets back - an id that is no longer an int")
         if why:
             cx.violation(rule, fn.qualname, 'memoised-function-is-a-pure-function-of-immutable-values',
                          f"{fn.qualname} is memoised ({ast.unparse(decs[0])}) but {why}", where=cx.where(fn))
